@@ -11,7 +11,7 @@ from engine import h2h, models
 from engine.models import sym_bytes
 from engine.runner import Shard
 
-MODELS = ['fmt_stub', 'HfSerialize', 'FrameFeed', 'LenBytes']
+MODELS = ['fmt_stub', 'HfSerialize', 'FrameFeed', 'LenBytes', 'SettingsBlob']
 MAXN = 2 ** 24 + 512
 BOUNDS = {
     'connection window W': '0..2^31-1 (symbolic)',
@@ -365,6 +365,7 @@ def h_api_only(client):
 
 
 def shards(tier, seed):
+    from props import c25
     out = []
     for client in (True, False):
         r = 'client' if client else 'server'
@@ -384,4 +385,8 @@ def shards(tier, seed):
                              expect=['sent', 'refused']))
     out.append(Shard('recv_settings_iws/reserved_stream', h_settings_reserved(),
                      expect=['applied', 'overflow']))
+    # the h2c upgrade hands the client's INITIAL_WINDOW_SIZE to stream 1 and leaves the
+    # connection windows alone
+    out.append(Shard('upgrade_handover', c25.h_settings_handover(True), budget=120,
+                     expect=['upgraded']))
     return out
